@@ -37,6 +37,8 @@ type form struct {
 	Ft  []string   `json:"ft"`
 	Fs  []string   `json:"fs"`
 	X   string     `json:"x"`
+	J   int        `json:"j"` // root type of the dynamic value (shared-site forms; 1 otherwise)
+	O   string     `json:"o"` // "1" | "2": order in which a shared site sees its values; "" otherwise
 }
 
 type beh struct {
@@ -64,14 +66,99 @@ func (h *hier) key() string {
 
 func (f *form) key() string {
 	cl := ""
-	if f.K == "switch" {
+	if f.K == "switch" || f.K == "sswitch" {
 		cl = fmt.Sprint(f.Cl)
+	}
+	if f.O != "" {
+		return strings.Join([]string{f.K, f.S, f.D, f.T, f.M, cl, "T" + strconv.Itoa(f.J), "o" + f.O}, "/")
 	}
 	return strings.Join([]string{f.K, f.S, f.D, f.T, f.M, cl}, "/")
 }
 
 // paths lists the embedding paths below T1 in the spec's PathSeq order.
-func (h *hier) paths() [][]int {
+func (h *hier) paths() [][]int { return h.pathsFrom(0) }
+
+// shared reports whether the form is one call of a shared site.
+func (f *form) shared() bool { return f.O != "" }
+
+// site is the name of the helper function a shared-site form calls.
+func (f *form) site() string {
+	return "site_" + f.K + "_" + f.S + "_" + f.T + "_o" + f.O
+}
+
+func sprobe(y, t string) string {
+	switch t {
+	case "IM", "IN", "IMN", "Stringer", "error", "Sort", "Writer":
+		return probe(y, t)
+	}
+	return "_ = " + y
+}
+
+// siteDecl renders the helper function of a shared site (the same for all its forms).
+func (f *form) siteDecl() string {
+	name := f.site()
+	switch f.K {
+	case "sassert2":
+		return "func " + name + "(x " + goType(f.S) + ") string {\n\ty, ok := x.(" + goType(f.T) + ")\n\t_ = y\n\tif ok {\n\t\t" + sprobe("y", f.T) + "\n\t}\n\treturn strconv.FormatBool(ok)\n}\n\n"
+	case "sassert1":
+		return "func " + name + "(x " + goType(f.S) + ") string {\n\ty := x.(" + goType(f.T) + ")\n\t" + sprobe("y", f.T) + "\n\treturn \"ok\"\n}\n\n"
+	case "scall":
+		return "func " + name + "(i " + goType(f.S) + ") {\n\t" + probe("i", f.S) + "\n}\n\n"
+	case "sswitch":
+		var b strings.Builder
+		bind := f.M == "bind"
+		b.WriteString("func " + name + "(x " + goType(f.S) + ") string {\n")
+		if bind {
+			b.WriteString("\tswitch y := x.(type) {\n")
+		} else {
+			b.WriteString("\tswitch x.(type) {\n")
+		}
+		for u, cl := range f.Cl {
+			ts := make([]string, len(cl))
+			for w, t := range cl {
+				ts[w] = goType(t)
+			}
+			b.WriteString("\tcase " + strings.Join(ts, ", ") + ":\n")
+			if bind {
+				b.WriteString("\t\t_ = y\n")
+				if len(cl) == 1 && cl[0] != "nil" {
+					b.WriteString("\t\t" + sprobe("y", cl[0]) + "\n")
+				}
+			}
+			b.WriteString("\t\treturn " + strconv.Quote(strconv.Itoa(f.Lb[u])) + "\n")
+		}
+		b.WriteString("\tdefault:\n")
+		if bind {
+			b.WriteString("\t\t_ = y\n")
+		}
+		b.WriteString("\t\treturn \"def\"\n\t}\n\treturn \"?\"\n}\n\n")
+		return b.String()
+	}
+	return "UNKNOWN_SITE_KIND_" + f.K
+}
+
+// sharedBody renders one call of a shared site with the form's dynamic value (a fresh object).
+func (f *form) sharedBody(id string) string {
+	q := strconv.Quote(id)
+	mk := "mk()"
+	if f.J > 1 {
+		mk = fmt.Sprintf("mk%d()", f.J)
+	}
+	pre, arg := "w := "+mk+"; ", "w"
+	switch f.D {
+	case "ptr":
+		pre, arg = "w := "+mk+"; ", "&w"
+	case "nil":
+		pre, arg = "var z "+goType(f.S)+"; ", "z"
+	}
+	if f.K == "scall" {
+		return pre + "lg = \"\"; " + f.site() + "(" + arg + "); outs(" + q + ", \"ok\")"
+	}
+	return pre + "lg = \"\"; r := " + f.site() + "(" + arg + "); outs(" + q + ", r)"
+}
+
+// pathsFrom lists the embedding paths below type root (0-based) in the spec's PathSeq order.
+func (h *hier) pathsFrom(root int) [][]int {
 	var res [][]int
 	var walk func(p []int)
 	walk = func(p []int) {
@@ -83,7 +170,7 @@ func (h *hier) paths() [][]int {
 			}
 		}
 	}
-	walk([]int{0})
+	walk([]int{root})
 	return res
 }
 
@@ -160,6 +247,9 @@ func operand(d string) string {
 
 // body renders the statements of one form (between the recover guard and nothing else).
 func (f *form) body(id string) string {
+	if f.shared() {
+		return f.sharedBody(id)
+	}
 	q := strconv.Quote(id)
 	out := func(r string) string { return "out(" + q + ", " + r + ", aux, &v)" }
 	pre := "v := mk(); aux := \"\"; "
@@ -275,6 +365,9 @@ func (f *form) expected(id string) string {
 	for _, e := range f.Log {
 		fmt.Fprintf(&lg, "T%d.%s:%d;", e.T, e.F, e.C)
 	}
+	if f.shared() {
+		return id + "|" + f.R + "|" + lg.String() + "||"
+	}
 	aux := ""
 	switch {
 	case f.K == "sprint" || f.K == "errorf" || f.K == "sprinti":
@@ -314,6 +407,7 @@ type program struct {
 	Src    string
 	IDs    []string
 	lineOf map[int]int
+	helper map[int]bool // source lines of shared-site helper functions (lineOf gives the site's first form)
 }
 
 func formID(i int) string { return fmt.Sprintf("f%03d", i) }
@@ -391,6 +485,14 @@ func render(h *hier, forms []form, sel []int) *program {
 		return s + "}"
 	}
 	w("\nfunc mk() T1 { return " + lit([]int{0}) + " }\n\n")
+	for j := 1; j < h.N; j++ {
+		// mkj(): a fresh Tj object, counters numbered along the paths below Tj
+		pos = map[string]int{}
+		for k, p := range h.pathsFrom(j) {
+			pos[fmt.Sprint(p)] = k + 1
+		}
+		w(fmt.Sprintf("func mk%d() T%d { return %s }\n\n", j+1, j+1, lit([]int{j})))
+	}
 	w("func st(v *T1) string {\n\treturn ")
 	for k, p := range paths {
 		if k > 0 {
@@ -405,8 +507,23 @@ func render(h *hier, forms []form, sel []int) *program {
 	w("}\n\n")
 	w("func out(id, r, aux string, v *T1) { fmt.Println(id + \"|\" + r + \"|\" + lg + \"|\" + aux + \"|\" + st(v)) }\n\n")
 	w("func rec(id string) {\n\tif r := recover(); r != nil {\n\t\tfmt.Println(id + \"|panic|\" + fmt.Sprint(r))\n\t}\n}\n\n")
+	w("func outs(id, r string) { fmt.Println(id + \"|\" + r + \"|\" + lg + \"||\") }\n\n")
+	pr := &program{lineOf: map[int]int{}, helper: map[int]bool{}}
+	seenSite := map[string]bool{}
+	for si, fi := range sel {
+		f := &forms[fi]
+		if !f.shared() || seenSite[f.site()] {
+			continue
+		}
+		seenSite[f.site()] = true
+		start := line
+		w(f.siteDecl())
+		for l := start; l < line; l++ {
+			pr.lineOf[l] = si
+			pr.helper[l] = true
+		}
+	}
 	w("func main() {\n")
-	pr := &program{lineOf: map[int]int{}}
 	for si, fi := range sel {
 		id := formID(fi)
 		pr.IDs = append(pr.IDs, id)
